@@ -6,8 +6,8 @@
   project's own writer (`bodyLines`), so "every layout of the writer's text" is what is covered.
 
   The fragment (everything else is outside the `_partial` block theorems of Props/C10.lean):
-  * identifier: a symbol (`\w+`) that does not start with `SECTION` / `ACTION`, with a
-    well-formed annotation list (Spec/AnnGrammar.lean);
+  * identifier: a symbol (`\w+`) that does not start with `SECTION` (SECTION_RE takes such a line as a
+    section, with or without colon), with a well-formed annotation list (Spec/AnnGrammar.lean);
   * parameters: distinct names `\w+` (not `returns` in any case, not `Varargs`), each with a
     well-formed annotation list and an optional ONE-LINE description that does not begin
     with a parenthesis or a colon;
@@ -17,7 +17,7 @@
   Excluded: the other identifier forms, multi-line parameter/tag descriptions, several
   paragraphs / indented lines in the description, `Since:`/`Deprecated:`/`Stability:`,
   annotations continued over several lines (covered at field level by C10_ann_continuation),
-  text beside the comment tokens, trailing white space, empty option values (`key=`).
+  text beside the comment tokens, trailing white space.
 -/
 import GIVerif.Model.AnnParse
 import GIVerif.Spec.AnnGrammar
@@ -69,7 +69,7 @@ structure SBlock where
   deriving Repr, DecidableEq
 
 def wfSBlock (b : SBlock) : Bool :=
-  wfWord b.name && !startsWith b.name (str "SECTION") && !startsWith b.name (str "ACTION") && wfAnns b.anns
+  wfWord b.name && !startsWith b.name (str "SECTION") && wfAnns b.anns
   && b.params.all wfParam && nodupKeys (b.params.map (fun p => (p.name, ())))
   && b.desc.all wfDescLine
   && (match b.returns with
